@@ -168,8 +168,8 @@ def handleL2 (j : Json) : Except String Json := do
        ("c02", Json.bool (literalsVerbatim segs o && callsVerbatim)),
        -- (an insert accepted although a member of one of its rows cannot be read - it lies behind
        -- a nil embedded pointer - cannot be row-faithful: the rejection is C08's, the rows C04's)
-       ("c04", Json.bool (!((match m.bind with | .error cls => cls == "nil-embedded-pointer" | .ok _ => false) &&
-            o.prepOk && o.bindOk && (kindProps segs).contains "C04") &&
+       -- (`nilEmbAccepted`: `Spec/DriverClauses.lean`; `nilEmbAccepted_model`, `Props/L2Clauses.lean`)
+       ("c04", Json.bool (!nilEmbAccepted m o segs &&
           holdsC04rej m o && literalsVerbatim segs o && (!c04rowsGuards tt segs || holdsC04rows C tt segs args o) && !lost.contains "C04")),
        -- (token predicates under `tokensGuards`: the witnesses of `Props/L2Tokens.lean` show they are
        -- false of the model without it; the mode half needs typed output nodes only)
